@@ -419,6 +419,23 @@ def _check_canary(repo, res, canary):
                             and _const_true(st.value):
                         ok, why = True, "loop over self.states storing True"
     res.check(ok, "R-CANARY", trip, "trip-sets-all", why, why)
+    # the flag dict is declared as a mutable *class* attribute: some method reached from __init__ must rebind it per
+    # instance before anything stores into it, otherwise all models share one set of flags
+    class_level = any(isinstance(v, (ast.Dict, ast.Call)) for c in repo.mro(canary) for k_, v in c.class_attrs.items() if k_ == "_states")
+    rebinds_in_trip = [n for n in walk_no_nested(trip.node) if isinstance(n, ast.Assign) and any(is_self_attr(t, "_states") for t in n.targets)]
+    init_c = None
+    for c in repo.mro(canary):
+        if "__init__" in c.methods:
+            init_c = c.methods["__init__"]
+            break
+    rebinds_in_init = [n for n in walk_no_nested(init_c.node) if isinstance(n, ast.Assign) and any(is_self_attr(t, "_states") for t in n.targets)] if init_c else []
+    init_calls_trip = bool(init_c) and any(isinstance(n, ast.Call) and is_self_attr(n.func, "trip") for n in walk_no_nested(init_c.node))
+    tcfg = cfg_of(trip)
+    trip_rebinds_always = bool(rebinds_in_trip) and tcfg.must_pass_after(tcfg.entry, [tcfg.node_of(n) for n in rebinds_in_trip])
+    own = (not class_level) or bool(rebinds_in_init) or (init_calls_trip and trip_rebinds_always)
+    res.check(own, "R-CANARY", trip, "flags-per-instance", "every canary instance gets its own flag dict (rebound in __init__ / trip)",
+              "self._states is a class-level dict that is only ever modified in place: all models share one set of recompile flags, so a second "
+              "model that recompiles an evaluator clears the flag the first (modified) model still needs")
     # __setattr__: a flag may only be set to a false value
     sa = None
     for c in repo.mro(canary):
